@@ -15,13 +15,62 @@ use std::sync::Arc;
 pub const KNOWN_SRGB_ID: [u8; 16] = [0x29, 0xf8, 0x3d, 0xde, 0xaf, 0xf2, 0x55, 0xae, 0x78, 0x42, 0xfa, 0xe4, 0xca, 0x83, 0x39, 0x0d];
 
 /// ICC-like profile: `kind` 0 = recognised sRGB id, 1 = other id, 2 = zero id (not a known-bad CRC), 3 = short
+/// the four profile IDs `srgb_rendering_intent` recognises (libpng's `png_sRGB_checks`)
+pub const KNOWN_SRGB_IDS: [[u8; 16]; 4] = [
+    KNOWN_SRGB_ID,
+    [0xc9, 0x5b, 0xd6, 0x37, 0xe9, 0x5d, 0x8a, 0x3b, 0x0d, 0xf3, 0x8f, 0x99, 0xc1, 0x32, 0x03, 0x89],
+    [0xfc, 0x66, 0x33, 0x78, 0x37, 0xe2, 0x88, 0x6b, 0xfd, 0x72, 0xe9, 0x83, 0x82, 0x28, 0xf1, 0xb8],
+    [0x34, 0x56, 0x2a, 0xbf, 0x99, 0x4c, 0xcd, 0x06, 0x6d, 0x2c, 0x57, 0x21, 0xd0, 0xd6, 0x8c, 0x5d],
+];
+/// (CRC-32, length) of the three profiles without an ID that are recognised all the same
+pub const KNOWN_BAD_PROFILES: [(u32, usize); 3] = [(0x5d51_29ce, 3024), (0x182e_a552, 3144), (0xf29e_526d, 3144)];
+
+/// Make the last four bytes of `p` such that its CRC-32 is `target` (CRC-32 is linear: run the register backwards
+/// from the target over four unknown bytes, then forwards from the prefix's register).
+pub fn forge_crc32(p: &mut [u8], target: u32) {
+    let table: Vec<u32> = (0..256u32)
+        .map(|n| (0..8).fold(n, |c, _| if c & 1 != 0 { 0xEDB8_8320 ^ (c >> 1) } else { c >> 1 }))
+        .collect();
+    let n = p.len();
+    let mut reg = 0xFFFF_FFFFu32;
+    for b in &p[..n - 4] {
+        reg = table[((reg ^ *b as u32) & 0xFF) as usize] ^ (reg >> 8);
+    }
+    let mut t = target ^ 0xFFFF_FFFF;
+    let mut idx = [0usize; 4];
+    for i in (0..4).rev() {
+        let k = (0..256).find(|k| table[*k] >> 24 == t >> 24).unwrap();
+        idx[i] = k;
+        t = (t ^ table[k]) << 8;
+    }
+    for i in 0..4 {
+        p[n - 4 + i] = (reg as u8) ^ idx[i] as u8;
+        reg = (reg >> 8) ^ table[idx[i]];
+    }
+}
+
+/// kinds: 0 = one of the four recognised IDs, 1 = random, 2 = no ID and an unknown CRC, 3 = too short for the
+/// header, 6 = one of the three ID-less profiles recognised by (CRC, length) - same length and CRC, forged
 pub fn gen_profile(rng: &mut Rng, kind: u64) -> Vec<u8> {
-    let plen = if kind == 3 { 60 } else { 128 + rng.below(100) as usize };
+    if kind == 6 {
+        let (crc, len) = KNOWN_BAD_PROFILES[rng.below(3) as usize];
+        let mut p = rng.bytes(len);
+        p[67] = rng.below(4) as u8;
+        p[84..100].copy_from_slice(&[0; 16]);
+        forge_crc32(&mut p, crc);
+        if rng.chance(1, 6) {
+            // the same but for one bit somewhere: not recognised
+            let k = rng.below(len as u64) as usize;
+            if !(84..100).contains(&k) { p[k] ^= 1; }
+        }
+        return p;
+    }
+    let plen = if kind == 3 { 60 } else if kind == 2 && rng.chance(1, 3) { *rng.choose(&[3024usize, 3144]) } else { 128 + rng.below(100) as usize };
     let mut p = rng.bytes(plen);
     if p.len() >= 100 {
         p[67] = rng.below(4) as u8;
         match kind {
-            0 => p[84..100].copy_from_slice(&KNOWN_SRGB_ID),
+            0 => p[84..100].copy_from_slice(&KNOWN_SRGB_IDS[rng.below(4) as usize]),
             2 => p[84..100].copy_from_slice(&[0; 16]),
             _ => {}
         }
@@ -44,7 +93,7 @@ pub fn gen_aux(rng: &mut Rng) -> Vec<([u8; 4], Vec<u8>)> {
         v.push((*b"sRGB", vec![rng.below(4) as u8]));
     }
     if rng.chance(1, 2) {
-        let kind = rng.below(6);
+        let kind = rng.below(7);
         let d = match kind {
             4 => b"name\0\x01zz".to_vec(),            // unknown compression method
             5 => b"nonterminated".to_vec(),          // no terminator
@@ -220,7 +269,7 @@ pub fn corr(ctx: &mut Ctx) {
         );
 
         // ---- srgb_rendering_intent / is_c2pa ---------------------------------------------
-        let pk = rng.below(4);
+        let pk = *rng.choose(&[0u64, 1, 2, 3, 6, 0]);
         let p = gen_profile(&mut rng, pk);
         ctx.line(
             &format!("srgb_intent {}", hex(&p)),
